@@ -182,8 +182,8 @@ fn get_integer(buf: &mut Cursor<&[u8]>) -> Result<i64, Error> {
 
     // i64 has at most 19 digits, so we parse the first 18 digits using unchecked arithmetic
     // and parse the last few digits using checked arithmetic
-    let max_safe_digits = 18;
     let start = buf.position() as usize;
+    let max_safe_digits = start + 18;
     let end = buf.get_ref().len() - 1;
     if start > end {
         // the sign was the last byte we have, wait for the digits
